@@ -139,9 +139,15 @@ def interleaved_parses(res, rng, kinds=('v2', 'v2'), prefix='c02'):
     from pykdebugparser.pykdebugparser import PyKdebugParser
     files = [gen.gen_v2(rng, first_nonzero=True, m=rng.choice((1, 2, 5, 40, 300))) if k == 'v2' else
              gen.gen_v3(rng, m=rng.choice((1, 2, 5, 40, 300)), n=2) for k in kinds]
-    use_top = rng.random() < 0.5
-    gens = [(PyKdebugParser().kevents(io.BytesIO(f['data'])) if use_top else
-             (e for e in KdBufParser({}, {}).parse(io.BytesIO(f['data'])) if hasattr(e, 'debugid'))) for f in files]
+    # the parser objects are built in every way the constructors allow (own tables, one table, none: the defaults)
+    def build():
+        c = rng.randrange(5)
+        if c == 0:
+            return PyKdebugParser()
+        return (KdBufParser({}, {}), KdBufParser(), KdBufParser({}), KdBufParser(pids_names={}))[c - 1]
+    parsers = [build() for _ in files]
+    gens = [(p.kevents(io.BytesIO(f['data'])) if isinstance(p, PyKdebugParser) else
+             (e for e in p.parse(io.BytesIO(f['data'])) if hasattr(e, 'debugid'))) for p, f in zip(parsers, files)]
     got = [[] for _ in files]
     try:
         for row in itertools.zip_longest(*gens):
@@ -161,6 +167,18 @@ def interleaved_parses(res, rng, kinds=('v2', 'v2'), prefix='c02'):
             res.violation(f'{prefix}-interleaved-parses', f'{len(files)} dumps parsed at the same time, their generators advanced '
                           f'alternately: event {k} of dump {i} ({f["kind"]}, {len(f["records"])} records) does not carry the '
                           f'fields of its own record', {'files': [x['data'] for x in files]})
+            return
+    # each parser object's tables are the thread map of the dump IT read, whatever other parser objects did meanwhile
+    from props import c03
+    for i, (p, f) in enumerate(zip(parsers, files) if prefix == 'c02' else ()):
+        want = c03.expected_tables(f) if f['kind'] == 'v3' else wire.threadmap_model(f['entries'])
+        res.count('tables_of_concurrent_parsers_checked')
+        if (dict(p.threads_pids), dict(p.pids_names)) != (want[0], want[1]):
+            res.violation(f'{prefix}-tables-of-another-parser', f'{len(files)} parser objects ({", ".join(type(x).__name__ for x in parsers)}) '
+                          f'each read its own dump: tables of parser {i} hold {dict(list(p.threads_pids.items())[:4])} / '
+                          f'{dict(list(p.pids_names.items())[:4])}, its dump\'s thread map says '
+                          f'{dict(list(want[0].items())[:4])} / {dict(list(want[1].items())[:4])}',
+                          {'files': [x['data'] for x in files]})
             return
 
 
